@@ -29,8 +29,15 @@ def run(ctx, crate):
     obs = []
     # R15.globals
     if crate.statics:
+        lazy = set(crate.data.get("lazy_statics") or [])
         for st in crate.statics:
             bad = st["mut"] or not st["freeze"] or st["thread_local"]
+            if bad and not st["mut"] and not st["thread_local"] and st["path"] in lazy:
+                # a constant computed on first use: created empty, only ever accessed through get_or_init with a closure that captures nothing, so every
+                # access yields the value of that closed expression (which the rules see in place of the access)
+                obs.append(Ob("R15.globals", st["path"], "static item is a lazily computed constant (OnceLock / OnceCell filled by a closure without captures)", True,
+                              expected="no shared mutable state", found=st["ty"], nontrivial=True))
+                continue
             obs.append(Ob("R15.globals", st["path"], "static item%s" % (" (mutable / interior-mutable / thread-local)" if bad else ""), not bad,
                           expected="no shared mutable state", found=st["ty"]))
     obs.append(Ob("R15.globals", crate.name, "static items in the crate: %d" % len(crate.statics), True, nontrivial=False))
